@@ -13,19 +13,20 @@ import (
 )
 
 // Value is one of:
-//   *sym.Term            scalar (Int or Bool sort); all Go integer kinds, bool
-//   *Str                 string
-//   *Ptr                 pointer (nil pointer: (*Ptr)(nil) is never used; see NilPtr)
-//   *StructV             struct value (copied on load/store)
-//   *ArrayV              array value (copied on load/store)
-//   *SliceV              slice header (nil slice: Arr == nil)
-//   *MapV                map reference (nil map: (*MapV)(nil) wrapped in MapRef)
-//   *Closure             func value
-//   *IfaceV              interface value (nil interface: Typ == nil)
-//   TupleV               multi-value
-//   *HostV               opaque host object
-//   *BytesV              []byte view backed by a Str (read-only)
-//   *FloatV              float constant (concrete only)
+//
+//	*sym.Term            scalar (Int or Bool sort); all Go integer kinds, bool
+//	*Str                 string
+//	*Ptr                 pointer (nil pointer: (*Ptr)(nil) is never used; see NilPtr)
+//	*StructV             struct value (copied on load/store)
+//	*ArrayV              array value (copied on load/store)
+//	*SliceV              slice header (nil slice: Arr == nil)
+//	*MapV                map reference (nil map: (*MapV)(nil) wrapped in MapRef)
+//	*Closure             func value
+//	*IfaceV              interface value (nil interface: Typ == nil)
+//	TupleV               multi-value
+//	*HostV               opaque host object
+//	*BytesV              []byte view backed by a Str (read-only)
+//	*FloatV              float constant (concrete only)
 type Value interface{}
 
 type Cell struct {
@@ -74,10 +75,10 @@ type MapV struct {
 }
 
 type Closure struct {
-	fn      *ssa.Function
-	env     []Value
-	native  func(in *Interp, args []Value) Value // builtin-implemented func value
-	name    string
+	fn     *ssa.Function
+	env    []Value
+	native func(in *Interp, args []Value) Value // builtin-implemented func value
+	name   string
 }
 
 type IfaceV struct {
